@@ -142,6 +142,9 @@ def build_driver(log):
         d = os.path.join(WORK, "ocaml")
         os.makedirs(d, exist_ok=True)
         srcs = [os.path.join(COQ, "extracted", "model.ml"), os.path.join(COQ, "extracted", "model.mli")]
+        # further extracted modules (model_rn: C12), named in ocaml/ORDER
+        srcs += [os.path.join(COQ, "extracted", f) for f in sorted(os.listdir(os.path.join(COQ, "extracted")))
+                 if f.startswith("model_") and f.endswith((".ml", ".mli"))]
         mls = sorted(f for f in os.listdir(os.path.join(ROOT, "ocaml")) if f.endswith(".ml"))
         srcs += [os.path.join(ROOT, "ocaml", f) for f in mls]
         h = hashlib.sha256()
